@@ -38,6 +38,8 @@ def _colour(rng, rgb, role):
     if role == "t" and m < 0.15:
         return enc(gen.spell_alpha(rng, rgb, rng.choice((0.0, 0.25, 0.5, 0.999, 1.0, round(rng.random(), 3))))[0]), True
     kinds = gen.CSS_SPELLINGS + gen.API_ONLY_SPELLINGS
+    if role == "t" and rng.random() < 0.25:
+        kinds = kinds + gen.EXOTIC_API_SPELLINGS  # text only: the label reference must be able to read the background
     return enc(gen.spell(rng, rgb, kinds)[0]), False
 
 
